@@ -6,6 +6,7 @@ from sim import gen, harness, world
 from sim.core import substream
 
 PROP = 'C17'
+TECHNIQUE = 'deterministic simulation: settings swarm (valid and invalid) with fresh-process usability oracle and cross/near-miss unlock attempts'
 LEVEL = 'exploration'
 RULE = ('one case = a settings dictionary for init drawn from the documented primitives and parameters with seeded defects '
         '(out-of-range, mistyped: float / negative / bool / string, unknown members, adapters of the wrong kind) and a chain of '
